@@ -120,12 +120,24 @@ func TestPropFailedWriteInsideOp(t *testing.T) {
 				if ops[i].kind == "graceful" && err != nil {
 					nd.Reopen()
 				}
-				got := e.observe(nd)
+				var got node.Obs
+				if stuck, slow := runBounded(func() { got = e.observe(nd) }); stuck != "" {
+					c.Violation("reads-never-return-after-failed-write", "write %d of %d (key %x) failed during op %d %s (%s backend), the call returned %v; reading the node afterwards never returns: the goroutine is parked on a lock nobody holds any more\n%s", m, W, fs.FailedKey, i, ops[i], nd.Backend(), err, stuck)
+				} else if slow != "" {
+					stats.HarnessError("observation after a failed write still running after %v (not parked on a lock):\n%s", stuckAfter, slow)
+				}
 				if err != nil {
 					if d := node.Diff(got, e.ref(wb), 5); len(d) > 0 {
 						c.Violation("memory-disagrees-with-disk-after-failed-write", "write %d of %d (key %x) failed during op %d %s (%s backend) and the call returned %q; the same Blockchain object now differs from the chain before the op:\n%v", m, W, fs.FailedKey, i, ops[i], nd.Backend(), err, d)
 					}
-					if err := apply(nd, ops[i]); err != nil {
+					err, stuck, slow := applyBounded(nd, ops[i])
+					if stuck != "" {
+						c.Violation("retry-never-returns", "after write %d of %d (key %x) failed during op %d %s (%s backend) and the call reported it, the retry never returns: its goroutine is parked on a lock nobody holds any more\n%s", m, W, fs.FailedKey, i, ops[i], nd.Backend(), stuck)
+					}
+					if slow != "" {
+						stats.HarnessError("retry of op %d %s still running after %v (not parked on a lock):\n%s", i, ops[i], stuckAfter, slow)
+					}
+					if err != nil {
 						c.Violation("retry-failed", "after write %d of %d (key %x) failed during op %d %s, the retry failed: %v", m, W, fs.FailedKey, i, ops[i], err)
 					}
 					if d := node.Diff(e.observe(nd), e.ref(wa), 5); len(d) > 0 {
